@@ -89,11 +89,17 @@ Print Assumptions C07_facet_selectors_agree.
 Theorem C07_collection_is_sorted_union :
   forall n dflt all_ok tags (l : list sel) (r : list nat),
     normalize n dflt all_ok tags (SColl l) = Some r ->
-    l <> [] /\ StronglySorted (lt Nat.compare) r /\
+    StronglySorted (lt Nat.compare) r /\
     (forall s, In s l -> exists a, normalize n dflt all_ok tags s = Some a) /\
     (forall x, In x r <-> exists s a, In s l /\ normalize n dflt all_ok tags s = Some a /\ In x a).
 Proof. exact normalize_coll. Qed.
 Print Assumptions C07_collection_is_sorted_union.
+
+(* the empty list / tuple / set is a valid selector and denotes the empty set *)
+Theorem C07_empty_collection_is_empty :
+  forall n dflt all_ok tags, normalize n dflt all_ok tags (SColl []) = Some [].
+Proof. exact normalize_empty_coll. Qed.
+Print Assumptions C07_empty_collection_is_empty.
 
 (* name filters are intersections: keep / drop / all restrict the rows, never the entities; __or__ unites the entities *)
 Theorem C07_name_filters_are_intersections :
